@@ -327,3 +327,24 @@ def build_harness(force=False):
     log('harness built in %.1fs' % (time.time() - t))
     _built = exe
     return exe
+
+
+def tla(v):
+    """Python value -> TLA+ literal (dict -> record, list -> sequence, bool, int, str)."""
+    if isinstance(v, bool):
+        return 'TRUE' if v else 'FALSE'
+    if isinstance(v, int):
+        return str(v)
+    if isinstance(v, str):
+        return '"%s"' % v.replace('\\', '\\\\').replace('"', '\\"')
+    if isinstance(v, (list, tuple)):
+        return '<<' + ', '.join(tla(x) for x in v) + '>>'
+    if isinstance(v, dict):
+        return '[' + ', '.join('%s |-> %s' % (k, tla(x)) for k, x in v.items()) + ']'
+    if v is None:
+        return '<<>>'
+    raise TypeError('cannot convert %r' % (v,))
+
+
+def tla_set(items):
+    return '{' + ',\n   '.join(items) + '}'
